@@ -35,6 +35,8 @@ struct Interp {
     bool strictErrors = false;         // step 'strict': assert even the error points a shortcut may absorb
     std::vector<int> pendingEvents;    // relation slots pushed by 'event' steps (partitioned saturation)
     std::vector<unsigned> destroyedFids;   // forest identifiers retired in this initialisation
+    std::vector<std::vector<MEDDLY::dd_edge*>> piles;   // edge copies kept by `hold` until `unhold`
+    std::vector<int> pileForest;
     // combinations excluded by construction because of a recorded known finding (interp_reach.cc)
     bool excludedCombo(const char* family, const std::string& combo, const std::string& alg,
                        const FSpec& relSpec, int setKind) const;
